@@ -58,6 +58,9 @@ ParamValues(p) ==
              UNION {IF p.dop.rows[i].st.k = "none" THEN (IF Wrong THEN {[t |-> "pair", a |-> p.dop.rows[i].n, b |-> Missing]} ELSE {})
                     ELSE {[t |-> "pair", a |-> p.dop.rows[i].n, b |-> x] : x \in DopValues(p.dop.rows[i].st)} : i \in 1..Len(p.dop.rows)}
              \cup (IF Wrong THEN {[t |-> "pair", a |-> "nosuchrow", b |-> Missing], Bad("str"), Bad("list")} ELSE {})
+      \* a constant may be supplied: only its own value is accepted (not the frame of every description, to keep the family small)
+      [] p.k \in {"CODED-CONST", "PHYS-CONST"} /\ Wrong /\ p.n \notin {"sid", "tail"} /\ p.cv.t = "int" ->
+             {Missing, p.cv, IntV(0), IntV(1)}
       [] OTHER -> {Missing}
 \* all assignments: each settable parameter supplied with a value of its alphabet or omitted
 Assignments(ps, i) ==
